@@ -36,26 +36,30 @@ impl Manager {
         let mut cfg = Cfg::new_with_predefined_call_names(nodes, &Some(interrupt_call_names))?;
         NodeDirectionPass::run(&mut cfg)?;
         EliminateDeadCodeDirectionsPass::run(&mut cfg)?;
-        AvailableValuePass::run(&mut cfg)?;
-        EcallTerminationPass::run(&mut cfg)?;
-        FunctionMarkupPass::run(&mut cfg)?;
-
         // Cutting the edges behind an exit ecall can make further values known
         // (a join loses a predecessor), which can reveal further exit ecalls:
         // alternate the two passes until no more edges are cut, so that the
-        // values describe the final graph.
-        loop {
-            AvailableValuePass::run(&mut cfg)?;
-            let edges_before: usize = cfg.iter().map(|node| node.nexts().len()).sum();
-            EcallTerminationPass::run(&mut cfg)?;
-            let edges_after: usize = cfg.iter().map(|node| node.nexts().len()).sum();
-            if edges_after == edges_before {
-                break;
-            }
-        }
+        // values describe the final graph. The functions are marked on that
+        // graph - an exit ecall found late must not leave the code behind it in
+        // the function - and the values are settled once more afterwards
+        // (marking redirects returns).
+        Self::settle_values_and_exits(&mut cfg)?;
+        FunctionMarkupPass::run(&mut cfg)?;
+        Self::settle_values_and_exits(&mut cfg)?;
         // EliminateDeadCodeDirectionsPass::run(&mut cfg)?; // to eliminate ecall terminated code
         LivenessPass::run(&mut cfg)?;
         Ok(cfg)
+    }
+    fn settle_values_and_exits(cfg: &mut Cfg) -> Result<(), Box<CfgError>> {
+        loop {
+            AvailableValuePass::run(cfg)?;
+            let edges_before: usize = cfg.iter().map(|node| node.nexts().len()).sum();
+            EcallTerminationPass::run(cfg)?;
+            let edges_after: usize = cfg.iter().map(|node| node.nexts().len()).sum();
+            if edges_after == edges_before {
+                return Ok(());
+            }
+        }
     }
     pub fn run_diagnostics(cfg: &Cfg, errors: &mut DiagnosticManager) {
         SaveToZeroCheck::run(cfg, errors);
